@@ -47,7 +47,7 @@ def segment(scn, tr):
             elif t[1] == 'dg':
                 dis_grp[int(t[2])] = t[3] == '1'
                 flag_change = True
-            elif t[1] == 'N':
+            elif t[1] in ('N', 'NI'):
                 cur = bytearray()
         elif k == 'R' and t[1] != '-':
             b = int(t[1], 16)
@@ -965,7 +965,7 @@ def oracle_C13(scn, tr):
         t = l.split()
         if t[0] == '>':
             cur = t[1:]
-            if cur[0] in ('t', 's', 'S', 'D', 'N'):
+            if cur[0] in ('t', 's', 'S', 'D', 'N', 'NI'):
                 quiet = False
         elif t[0] == 'I' and t[1] == 't':
             quiet = False
@@ -1100,7 +1100,9 @@ def oracle_C14(scn, tr):
                     fails.append('a command is held and an event handler returned data, but six cat_service calls later no byte of the event was offered to the output (events are not delivered during the hold)')
             else:
                 ev_wait = None
-        if t[0] == '>' and t[1] == 'x':
+        if t[0] == '>' and t[1] in ('N', 'NI'):
+            state, want, outseg, ev_wait = 'NONE', set(), bytearray(), None        # cat_init: a fresh parser
+        elif t[0] == '>' and t[1] == 'x':
             pend_status = 'OK' if t[2] == '0' else 'ERROR'
         elif t[0] == 'H' and l.endswith('-> 4') and is_cmd_side(t):
             state = 'HELD'
@@ -1454,7 +1456,7 @@ def oracle_C20_units_newline(scn, tr):
     out = bytearray()
     for l in tr:
         t = l.split()
-        if t[0] == '>' and t[1] == 'N':
+        if t[0] == '>' and t[1] in ('N', 'NI'):
             cur = bytearray()
         elif t[0] == 'R' and t[1] != '-':
             b = int(t[1], 16)
